@@ -20,6 +20,17 @@ fn out() -> &'static Option<Mutex<File>> {
     })
 }
 
+static WORK: AtomicU64 = AtomicU64::new(0);
+
+/// Work counter: bytes moved by the crate's own copy loops (always counted, independent of the trace file).
+pub fn work(n: usize) {
+    WORK.fetch_add(n as u64, Ordering::Relaxed);
+}
+
+pub fn work_total() -> u64 {
+    WORK.load(Ordering::Relaxed)
+}
+
 pub fn enabled() -> bool {
     out().is_some()
 }
